@@ -10,12 +10,12 @@ import (
 // FuncInfo caches per-function CFG facts: back edges, natural loops, the
 // values defined in each loop, reachability.
 type FuncInfo struct {
-	Fn        *ssa.Function
-	BackEdge  map[[2]int]bool          // (from,to) block indices
-	LoopOf    map[int]map[int]bool     // header index -> set of block indices in the natural loop
-	LoopDefs  map[int]map[ssa.Value]bool // header index -> values defined in the loop
-	InLoop    map[int]bool             // block index -> belongs to some loop
-	reach     map[int]map[int]bool
+	Fn       *ssa.Function
+	BackEdge map[[2]int]bool            // (from,to) block indices
+	LoopOf   map[int]map[int]bool       // header index -> set of block indices in the natural loop
+	LoopDefs map[int]map[ssa.Value]bool // header index -> values defined in the loop
+	InLoop   map[int]bool               // block index -> belongs to some loop
+	reach    map[int]map[int]bool
 }
 
 var funcInfoCache = map[*ssa.Function]*FuncInfo{}
